@@ -64,8 +64,11 @@ Definition restore (v : saved) (c : ctrl) : ctrl :=
 Inductive kind :=
 | KCaptured    (* EvalCallExpression, Apply, Force: capture; pc := -2; CallFunction; Run; restore on error *)
 | KUser        (* CallUserFunction: capture; push address; host function (may re-enter); restore on error or panic *)
-| KEvalFn.     (* EvalFunction (since 4b37dbf): capture; CallFunction (pc unchanged); Run; restore on error;
+| KEvalFn      (* EvalFunction (since 4b37dbf): capture; CallFunction (pc unchanged); Run; restore on error;
                   on success the state the callee's return left is kept *)
+| KSource.     (* source.go:SourceExpressions (engine of SourceStream / SourceFile and of the builtin source):
+                  saves curfunc and pc; curfunc := __source, pc := 0; Run; a DEFER puts curfunc and pc back
+                  whatever happened; on success the result is pushed on the data stack *)
 
 Inductive act :=
 | APush (k : stk) (x : Z)
@@ -147,6 +150,12 @@ Section Exec.
             match run body (call_function 9 c) with
             | OK c1 => OK c1
             | Err c1 => Err (restore st c1)
+            | Crash => Crash
+            end
+          | KSource =>
+            match run body (jump 10 0 c) with
+            | OK c1 => OK (jump (cur c) (pc c) (put SData (0%Z :: dstk c1) c1))
+            | Err c1 => Err (jump (cur c) (pc c) c1)
             | Crash => Crash
             end
           end)
